@@ -38,3 +38,17 @@ pub(crate) fn insert_price_recorder_strict<'ctx>(
         RECORDED += 1;
     }
 }
+
+/// Kani stub cutting commodity conversion out of harnesses that request no conversion
+/// (`BalanceQuery.conversion == None`): CBMC cannot resolve the niche-encoded `Option<Conversion>`
+/// at symbolic-execution time and would otherwise drag the whole price search into the query.
+#[cfg(kani)]
+pub(crate) fn cut_convert_amount<'ctx>(
+    _price_repos: &mut PriceRepository<'ctx>,
+    amount: &Amount<'ctx>,
+    _commodity_with: Commodity<'ctx>,
+    _date: NaiveDate,
+) -> Result<Amount<'ctx>, ConversionError<'ctx>> {
+    kani::assume(false);
+    Ok(amount.clone())
+}
